@@ -444,6 +444,20 @@ def rand_spec(rng):
     for name in K.POINT_TIERS_1 + ["fricationAmplitude", "bypass", "gain"]:
         if rng.random() < 0.5:
             spec["points"][name] = rand_points(rng, hi, 5, lo)
+    if rng.random() < 0.25:
+        # formant tracks that do not all cover the whole grid (a track that starts later or ends earlier); the first track of a
+        # group keeps the grid's span, so the group's own span - the union of its tracks - is the one written in the file
+        spec["spans"] = {}
+        for key in ("oral", "oral_bw", "fric", "fric_bw"):
+            spans = [None]
+            for k in range(1, len(spec[key])):
+                d = rng.choice([0.125, 0.25])
+                span = rng.choice([None, (lo + d, hi), (lo, hi - d), (lo + d, hi - d)])
+                spans.append(span)
+                if span:
+                    spec[key][k] = rand_points(rng, span[1], 4, span[0])
+            spec["spans"][key] = spans
+        REC.cls("C19:kg:sub-tier-spans-differ")
     return spec
 
 
